@@ -132,7 +132,6 @@ SUMMARIES = {
     "sequence.sequence.Sequence.validate_alphabet": validate_alphabet,
     "location.location_impl.EmptyLocation": empty_location,
     "parent.make_parent": make_parent,
-    "gene.codon.Codon.__new__": codon_new,
 }
 LOOPS = {}
 # ---- regular expressions: the real ``re`` module is used on CONCRETE strings (trusted library) -------------------
@@ -187,6 +186,6 @@ EXTERNALS = {"Bio.Seq.Seq": bio_seq, "re.compile": _re_compile, "re.match": _re_
              "collections.defaultdict": _defaultdict}
 EXTERNAL_CONSTS = {"string.punctuation": _string.punctuation, "re.IGNORECASE": int(_re.IGNORECASE),
                    "re.I": int(_re.IGNORECASE)}
-DEFAULT = ["util.bins.bins", "util.hashing.digest_object", "sequence.sequence.Sequence.validate_alphabet", "parent.make_parent", "location.location_impl.EmptyLocation", "gene.codon.Codon.__new__"]
+DEFAULT = ["util.bins.bins", "util.hashing.digest_object", "sequence.sequence.Sequence.validate_alphabet", "parent.make_parent", "location.location_impl.EmptyLocation"]
 LIB = {"default": DEFAULT, "summaries": SUMMARIES, "loops": LOOPS, "attr_hooks": {}, "externals": EXTERNALS,
        "external_consts": EXTERNAL_CONSTS}
